@@ -7,6 +7,7 @@
 //!    anchor wrapper, hitting a budget, nesting another parse inside a Deserialize impl, abandoning
 //!    the iterator, panicking visitors, serialization): each call's result compared with the same
 //!    call on a fresh thread.
+//!    Call kinds include serializer calls of four option flavours over the same words.
 use crate::coq;
 use crate::ctx::{Ctx, Rng};
 use crate::util;
